@@ -1890,6 +1890,82 @@ pub fn fam_typed_impls(cfg: &Config, flags: Flags, max_len: usize) -> (Report, V
 	})
 }
 
+/// Documents whose nesting follows an irregular pattern of arrays and objects,
+/// depth 1..=max (every depth), closed properly or damaged at one level; also
+/// wide objects with few distinct keys (n entries cycling over k keys).
+pub fn fam_nesting_patterns(cfg: &Config, flags: Flags, max: usize) -> (Report, Vec<u8>) {
+	let name = "irregular-nesting-patterns-and-wide-objects-with-few-keys";
+	let seed = cfg.seed;
+	run_family(cfg, flags, name, 32, &move |i, mon| {
+		let mut rng = Rng::new(seed).fork(0x9e57 + i as u64);
+		let mut n = 0u64;
+		let mut depth = i + 1;
+		let mut doc = String::new();
+		while depth <= max {
+			for variant in 0..6usize {
+				// the kind of every level: random, or periodic with a period that is not a power of two
+				let kinds: Vec<bool> = (0..depth)
+					.map(|l| match variant {
+						0 | 1 | 5 => rng.chance(1, 2),
+						2 => l % 3 == 0,
+						3 => l % 5 < 2,
+						_ => (l / 7) % 2 == 0,
+					})
+					.collect();
+				doc.clear();
+				for (l, obj) in kinds.iter().enumerate() {
+					if *obj {
+						if l % 4 == 1 {
+							doc.push_str("{\"p\":0,");
+						} else {
+							doc.push('{');
+						}
+						doc.push_str("\"k\":");
+					} else {
+						doc.push('[');
+						if l % 3 == 2 {
+							doc.push_str("true,");
+						}
+					}
+				}
+				doc.push_str(["1", "\"s\"", "{}", "[]", "null"][depth % 5]);
+				let damaged_level = if variant == 5 { Some(rng.below(depth)) } else { None };
+				for (l, obj) in kinds.iter().enumerate().rev() {
+					if l % 5 == 4 {
+						doc.push_str(if *obj { ",\"z\":[]" } else { ",2" });
+					}
+					// a damaged document closes one level with the wrong bracket
+					let close_obj = if damaged_level == Some(l) { !*obj } else { *obj };
+					doc.push(if close_obj { '}' } else { ']' });
+				}
+				mon.input(name, doc.as_bytes());
+				n += 1;
+			}
+			mon.rep.max("deepest_irregular_nesting", depth as u64);
+			depth += 32;
+		}
+		// wide objects with few distinct keys: n entries cycling over k keys
+		for k in [1usize, 2, 3, 8, 31, 32, 33] {
+			let mut entries = i + 1;
+			while entries <= 100 {
+				doc.clear();
+				doc.push('{');
+				for e in 0..entries {
+					if e > 0 {
+						doc.push(',');
+					}
+					doc.push_str(&format!("\"key{}\":{}", (e * 7) % k, e));
+				}
+				doc.push('}');
+				mon.input(name, doc.as_bytes());
+				n += 1;
+				entries += 32;
+			}
+		}
+		mon.rep.distinct_by_construction(n);
+	})
+}
+
 /// Long lexemes other than strings: digit runs of every length in each part of
 /// a number, blank runs of every length between tokens, long runs of one-token
 /// items; each also followed by something ill-formed.
